@@ -219,5 +219,182 @@ func domSentinel(r *engine.Run, rule string, fns []*ssa.Function) int {
 				strings.Join(bad, "; "))
 		}
 	}
+	n += domSentinelHelpers(r, rule, fns)
+	return n
+}
+
+// domSentinelHelpers: the same obligations when the scan lives in a helper that
+// returns the slot number or a sentinel and the caller decides on the result.
+func domSentinelHelpers(r *engine.Run, rule string, fns []*ssa.Function) int {
+	n := 0
+	arrayLen := func(x ssa.Value) int64 {
+		t := x.Type().Underlying()
+		if p, ok := t.(*types.Pointer); ok {
+			t = p.Elem().Underlying()
+		}
+		if a, ok := t.(*types.Array); ok {
+			return a.Len()
+		}
+		return -1
+	}
+	indexUses := func(f *ssa.Function) (map[ssa.Value]int64, map[ssa.Value]ssa.Instruction) {
+		l, u := map[ssa.Value]int64{}, map[ssa.Value]ssa.Instruction{}
+		engine.Instrs(f, func(in ssa.Instruction) {
+			var x, idx ssa.Value
+			switch i := in.(type) {
+			case *ssa.IndexAddr:
+				x, idx = i.X, i.Index
+			case *ssa.Index:
+				x, idx = i.X, i.Index
+			default:
+				return
+			}
+			if k := arrayLen(x); k > 0 {
+				l[idx] = k
+				if _, had := u[idx]; !had {
+					u[idx] = in
+				}
+			}
+		})
+		return l, u
+	}
+	type summary struct {
+		consts []int64
+		N      int64
+	}
+	sums := map[*ssa.Function]summary{}
+	for _, g := range fns {
+		if g == nil || len(g.Blocks) == 0 || g.Signature.Results().Len() != 1 {
+			continue
+		}
+		if b, ok := g.Signature.Results().At(0).Type().Underlying().(*types.Basic); !ok || b.Kind() != types.Int {
+			continue
+		}
+		idxLen, _ := indexUses(g)
+		var consts []int64
+		var N int64 = -1
+		other := false
+		seen := map[ssa.Value]bool{}
+		var walk func(v ssa.Value)
+		walk = func(v ssa.Value) {
+			if seen[v] {
+				return
+			}
+			seen[v] = true
+			if ph, ok := v.(*ssa.Phi); ok {
+				for _, e := range ph.Edges {
+					walk(e)
+				}
+				return
+			}
+			if c, ok := v.(*ssa.Const); ok && c.Value != nil && c.Value.Kind() == constant.Int {
+				k, _ := constant.Int64Val(c.Value)
+				consts = append(consts, k)
+				return
+			}
+			if l, ok := idxLen[v]; ok {
+				N = l
+				return
+			}
+			other = true
+		}
+		for _, ret := range engine.Returns(g) {
+			if len(ret.Results) == 1 {
+				walk(resultValue(ret, 0))
+			}
+		}
+		if N > 0 && len(consts) > 0 && !other {
+			sums[g] = summary{consts, N}
+		}
+	}
+	if len(sums) == 0 {
+		return 0
+	}
+	for _, f := range fns {
+		if f == nil || len(f.Blocks) == 0 {
+			continue
+		}
+		idxLen, idxUse := indexUses(f)
+		engine.Instrs(f, func(in ssa.Instruction) {
+			c, ok := in.(*ssa.Call)
+			if !ok {
+				return
+			}
+			sm, ok := sums[c.Call.StaticCallee()]
+			if !ok {
+				return
+			}
+			l, used := idxLen[c]
+			if !used || l != sm.N {
+				return
+			}
+			use := idxUse[c]
+			var dec *ssa.BinOp
+			var decTrue bool
+			var decK int64
+			for _, b := range f.Blocks {
+				ifi, ok := b.Instrs[len(b.Instrs)-1].(*ssa.If)
+				if !ok {
+					continue
+				}
+				bo, ok := ifi.Cond.(*ssa.BinOp)
+				if !ok || bo.X != ssa.Value(c) {
+					continue
+				}
+				k, ok := bo.Y.(*ssa.Const)
+				if !ok || k.Value == nil || k.Value.Kind() != constant.Int {
+					continue
+				}
+				for si, sblk := range b.Succs {
+					if len(sblk.Preds) == 1 && sblk.Dominates(use.Block()) {
+						dec, decTrue = bo, si == 0
+						decK, _ = constant.Int64Val(k.Value)
+					}
+				}
+			}
+			n++
+			name := fn(c.Call.StaticCallee())
+			construct := fmt.Sprintf("%s|scan result of %s over %d slots", fn(f), name, sm.N)
+			if dec == nil {
+				r.Fail(rule, construct, r.P.Pos(c.Pos()), "the result of the slot scan "+name+" (a slot number or one of the sentinels) is used as a slot number without a dominating comparison with a constant")
+				return
+			}
+			eval := func(v int64) bool {
+				var res bool
+				switch dec.Op {
+				case token.EQL:
+					res = v == decK
+				case token.NEQ:
+					res = v != decK
+				case token.LSS:
+					res = v < decK
+				case token.LEQ:
+					res = v <= decK
+				case token.GTR:
+					res = v > decK
+				case token.GEQ:
+					res = v >= decK
+				}
+				return res == decTrue
+			}
+			var bad []string
+			for _, k := range sm.consts {
+				if k >= 0 && k < sm.N {
+					bad = append(bad, fmt.Sprintf("the constant %d returned by %s is also the number of a slot", k, name))
+				} else if eval(k) {
+					bad = append(bad, fmt.Sprintf("the decision before the use accepts the sentinel %d", k))
+				}
+			}
+			for v := int64(0); v < sm.N; v++ {
+				if !eval(v) {
+					bad = append(bad, fmt.Sprintf("the decision `result %s %d` before the use rejects slot %d", dec.Op, decK, v))
+					break
+				}
+			}
+			r.Check(len(bad) == 0, rule, construct, r.P.Pos(dec.Pos()),
+				fmt.Sprintf("sentinels %v are outside [0,%d); the decision `result %s %d` accepts exactly the slot numbers", sm.consts, sm.N, dec.Op, decK),
+				strings.Join(bad, "; "))
+		})
+	}
 	return n
 }
